@@ -2,6 +2,7 @@ package sdl
 
 import (
 	"fmt"
+	"math"
 	"strconv"
 	"strings"
 
@@ -63,7 +64,9 @@ func (u *cpuQuantity) UnmarshalYAML(node *yaml.Node) error {
 		return errNegativeValue
 	}
 
-	*u = cpuQuantity(val)
+	// val is a binary floating point product: 2.01 * 1000 is 2009.9999999999998, so round to the
+	// nearest milli-CPU instead of truncating
+	*u = cpuQuantity(math.Round(val))
 
 	return nil
 }
@@ -99,7 +102,8 @@ func parseWithSuffix(sval string) (uint64, error) {
 			return 0, errNegativeValue
 		}
 
-		return uint64(val), nil
+		// same here: 4.1 * 1e9 is 4099999999.9999995, round instead of truncating
+		return uint64(math.Round(val)), nil
 	}
 
 	val, err := strconv.ParseFloat(sval, 64)
